@@ -76,6 +76,23 @@ func c03PostOrder(c *eng.Ctx, r *eng.Report) {
 	}
 	puts := batchCalls(fn, "Put")
 	writes := batchCalls(fn, "Write")
+	// a trie helper that is handed the batch and writes it (the size-triggered flush, extracted) stands for the Write
+	for _, s := range eng.Sites(fn) {
+		call, isCall := s.Instr.(*ssa.Call)
+		h := s.Static()
+		if !isCall || h == nil || h == fn || h.Blocks == nil || !strings.HasSuffix(eng.FuncPkgPath(h), "/"+triePkg) {
+			continue
+		}
+		takesBatch := false
+		for _, a := range call.Call.Args {
+			if strings.HasSuffix(eng.ShortType(a.Type()), "db.Batch") {
+				takesBatch = true
+			}
+		}
+		if takesBatch && len(batchCalls(h, "Write")) > 0 {
+			writes = append(writes, call)
+		}
+	}
 	key := "(*storage/trie.NodeDatabase).commit:post-order"
 	switch {
 	case len(rec) == 0:
